@@ -81,7 +81,7 @@ def siblings(c, cases):
 def run(tier, seed):
     return st.run_structural(
         "C11", tier, seed, "ZeepVerif.Props.C11", "ZeepVerif/Audit/C11.lean",
-        [("gencyc", 300, 8000), ("gen", 350, 4000), ("gentopo", 100, 2000)], oracle, projection, CHECKER, extra_props=[('ZeepVerif.Props.C11Read', 'ZeepVerif/Audit/C11Read.lean'), ('ZeepVerif.Props.C13All', 'ZeepVerif/Audit/C13All.lean')], extra=siblings,
+        [("gencyc", 300, 8000), ("gen", 350, 4000), ("gentopo", 100, 2000)], oracle, projection, CHECKER, extra_props=[('ZeepVerif.Props.C11Read', 'ZeepVerif/Audit/C11Read.lean'), ('ZeepVerif.Props.C13All', 'ZeepVerif/Audit/C13All.lean'), ('ZeepVerif.Props.C11All', 'ZeepVerif/Audit/C11All.lean')], extra=siblings,
         note_assumptions=["the traversal theorems are about `visit`, the import skeleton of reader.rs (mark, then follow imports); its agreement with the "
                           "full model and the implementation is what the correspondence part checks on every graph",
                           "in the cyclic profile lookup references (ref=, base=) stay inside their file: a reference into a file that is still being read cannot be resolved by zeep's per-file documents (DESIGN.md section 6)"],
